@@ -551,7 +551,8 @@ func c19Steps(hf mechanisms.MechanismFactory, sts []config.MechanismConfig, eh b
 	items := make([]string, len(sts))
 	for i, st := range sts {
 		mres, cel := c19StepOracle(hf, st, eh)
-		items[i] = vf.CoqApp("stp", c19Map(st, 2), mres, vf.CoqBool(cel))
+		// the factory looks at the top level of a step only: deeper values are cut at depth 1
+		items[i] = vf.CoqApp("stp", c19Map(st, 1), mres, vf.CoqBool(cel))
 	}
 
 	return vf.CoqList(items)
@@ -792,7 +793,7 @@ func TestVerifC19Rules(t *testing.T) {
 
 		for pi, p := range ps {
 			for k := 0; k < c19Kinds; k++ {
-				if quick && bi == 0 && (pi+k)%4 != 0 { // the large rule set: a quarter of the product per quick run
+				if quick && bi == 0 && (pi+k)%6 != 0 { // the large rule set: a sixth of the product per quick run
 					continue
 				}
 
@@ -801,7 +802,7 @@ func TestVerifC19Rules(t *testing.T) {
 				}
 			}
 
-			if !quick || bi > 0 {
+			if !quick || bi > 1 {
 				for op := 0; op < 3; op++ {
 					if text, ok := c19Marshal(c19Edit(c19Clone(base), p, op)); ok {
 						add(bi, fmt.Sprint(p, " edit", op), text)
@@ -851,7 +852,7 @@ func TestVerifC19Rules(t *testing.T) {
 	for bi, b := range c19Bases {
 		step := 1
 		if quick {
-			step = []int{11, 3, 2}[bi]
+			step = []int{23, 5, 3}[bi]
 		}
 
 		for off := 0; off <= len(b); off += step {
